@@ -32,12 +32,64 @@ func rawCap(p unsafe.Pointer) int {
 
 //go:norace
 func (s *Sched) meta(p unsafe.Pointer, keep any) *chanMeta {
-	m := s.chans[uintptr(p)]
+	m := s.chans.get(uintptr(p))
 	if m == nil {
 		m = &chanMeta{keep: keep, unbuf: rawCap(p) == 0}
-		s.chans[uintptr(p)] = m
+		s.chans.put(uintptr(p), m)
 	}
 	return m
+}
+
+// chanTable maps channel addresses to their side-table entry. It is a
+// hand-rolled open-addressing table: the runtime's map operations report to the
+// race detector whatever the caller's //go:norace says, and the scheduler's own
+// state must stay invisible to it.
+type chanTable struct {
+	keys []uintptr
+	vals []*chanMeta
+	n    int
+}
+
+//go:norace
+func (t *chanTable) slot(k uintptr) int {
+	mask := uintptr(len(t.keys) - 1)
+	i := (k >> 4 * 0x9E3779B1) & mask
+	for t.keys[i] != 0 && t.keys[i] != k {
+		i = (i + 1) & mask
+	}
+	return int(i)
+}
+
+//go:norace
+func (t *chanTable) get(k uintptr) *chanMeta {
+	if len(t.keys) == 0 {
+		return nil
+	}
+	return t.vals[t.slot(k)]
+}
+
+//go:norace
+func (t *chanTable) put(k uintptr, m *chanMeta) {
+	if t.n*2 >= len(t.keys) {
+		ok, ov := t.keys, t.vals
+		n := len(ok) * 2
+		if n == 0 {
+			n = 64
+		}
+		t.keys, t.vals, t.n = make([]uintptr, n), make([]*chanMeta, n), 0
+		for i, k := range ok {
+			if k != 0 {
+				j := t.slot(k)
+				t.keys[j], t.vals[j] = k, ov[i]
+				t.n++
+			}
+		}
+	}
+	i := t.slot(k)
+	if t.keys[i] == 0 {
+		t.n++
+	}
+	t.keys[i], t.vals[i] = k, m
 }
 
 // MakeChan replaces make(chan T, n).
@@ -126,7 +178,7 @@ func Send[T any](ch chan<- T, v T) {
 	m := s.meta(p, bch)
 	if m.unbuf {
 		g.handVal = v
-		raceRelease(m)
+		raceReleaseMerge(m)
 	}
 	yield(&chanOp{kind: "send", p: p, m: m, send: true, g: g})
 	if g.hand { // a receiver took the value while we were parked
@@ -269,7 +321,7 @@ func Close[T any](ch chan<- T) {
 	}
 	m.closed = true
 	if m.unbuf {
-		raceRelease(m)
+		raceReleaseMerge(m)
 	}
 	close(bch)
 }
@@ -546,7 +598,7 @@ func selectUnmanaged(hasDefault bool, cases []Case) int {
 func raceReleaseCase(c Case) {
 	type hasMeta interface{ meta() *chanMeta }
 	if m := c.(hasMeta).meta(); m != nil && m.unbuf {
-		raceRelease(m)
+		raceReleaseMerge(m)
 	}
 }
 
